@@ -2348,7 +2348,15 @@ class HedgeRisks(Algo):
             i = d.index.get_loc(target.now)
             data.append((i, d))
 
-        hedge_risk = np.array([[_get_unit_risk(s, d, i) for (i, d) in data] for s in securities])
+        # risk of one unit of each instrument, consistent with UpdateRisk
+        # (unit risk * multiplier); not-yet-created children are plain securities
+        def _multiplier(s):
+            c = target.children.get(s)
+            if c is None:
+                c = target._lazy_children.get(s)
+            return getattr(c, "multiplier", 1.0)
+
+        hedge_risk = np.array([[_get_unit_risk(s, d, i) * _multiplier(s) for (i, d) in data] for s in securities])
 
         # Get hedge ratios
         if self.pseudo:
